@@ -704,6 +704,9 @@ class AccessMixin:
                 self.pop_scope()
         c_j, v_j = body_at(f(k))
         ety = ctx.type_of(v_j)
+        exp = getattr(self, "_expected_ty", None)
+        if ety is None and exp is not None and exp.name == "List" and isinstance(v_j, Cell) and v_j.sym is None and not v_j.conc:
+            ety = exp.args[0]          # `[[] for _ in ...]`: the element is an empty container of the declared type
         if ety is None:
             raise Unsupported("comprehension element type")
         lty = TList(ety)
